@@ -2019,6 +2019,35 @@ theorem ieee_anomaly_phase_mean_error (c n i j : Nat) (obs : Mat) (hc : 0 < c)
                 / (everyNth c i obs).length) :=
   float_exec_anomaly_phase_mean_error ieee64 u64_nonneg u64_nonneg c n i j obs hc h hi hT hj mf hf
 
+/-- **after every history** of window changes, queries and cache evictions: the phase mean computed
+in floating point from the *current* window is within the proved bound of the memoised exact
+`phase_mean()`, and the computed anomalies add back to the current observable up to one rounding
+(composition with `queries_follow_window` — the float clauses follow every window change too) -/
+theorem float_exec_after_history {u ud : ℚ} (F : FlArith u ud) (hu : 0 ≤ u) (hud : 0 ≤ ud)
+    (o : Obj) (ops : List Op) (hinv : o.Inv) :
+    let o' := o.run ops
+    let obs := o'.cur.obs
+    let n := o'.cur.lat.length
+    (∀ i j m mf, i < o'.cycle → j < n → o'.phaseMeanQ.1[i]? = some (some m) →
+        (flPhaseMeanLoop F.ops o'.cycle n obs)[i]? = some (some mf) →
+        |mf.getD j 0 - m.getD j 0|
+          ≤ ((1 + u) ^ ((everyNth o'.cycle i obs).length - 1) * (1 + ud) - 1)
+              * (((column (everyNth o'.cycle i obs) j).map (|·|)).sum
+                  / (everyNth o'.cycle i obs).length))
+    ∧ (0 < o'.cycle → ∀ t (ht : t < obs.length), ∃ mf a,
+        (flPhaseMeanLoop F.ops o'.cycle n obs)[t % o'.cycle]? = some (some mf)
+          ∧ (flAnomalyOf F.ops o'.cycle n obs)[t]? = some a ∧ a.length = n
+          ∧ ∀ j, j < n →
+              |a.getD j 0 + mf.getD j 0 - obs[t].getD j 0|
+                ≤ u * |obs[t].getD j 0 - mf.getD j 0|) := by
+  intro o' obs n
+  have h := run_inv o ops hinv
+  have hq := (queries_follow_window o ops hinv).1
+  refine ⟨fun i j m mf hi hj hm hf => ?_, fun hc t ht => ?_⟩
+  · rw [hq] at hm
+    exact float_exec_phase_mean_error F hu hud o'.cycle n i j obs h.curWF.cols hi hj m mf hm hf
+  · exact float_exec_anomaly_add_phase_mean F o'.cycle n obs hc h.curWF.cols t ht
+
 /-- non-vacuity / the model really rounds: `1 + 2⁻⁵³` is a tie and goes to the even neighbour `1`,
 `1/3` is not representable, a representable sum is returned exactly; in binary32 `1 + 2⁻²⁴` is the tie -/
 example : ops64.add 1 (1 / 2 ^ 53) = 1 ∧ ops64.div 1 3 ≠ 1 / 3 ∧ ops64.add (3 / 2) (-1 / 4) = 5 / 4
